@@ -144,6 +144,18 @@ def doc_default(cs):
     return names[0] if names else None
 
 
+def doc_prefixes(cs):
+    """(identifier prefix, file name prefix) as the *document* states them, by the documented rule (cfg-obj.adoc,
+    code generation options: a string PREFIX means identifier prefix `PREFIX_` and file name prefix `PREFIX`; an
+    object gives both; the default is `barectf`)"""
+    import yaml
+    doc = yaml.safe_load(cs.text.split('\n', 1)[1])
+    pn = ((doc.get('options') or {}).get('code-generation') or {}).get('prefix', 'barectf')
+    if isinstance(pn, str):
+        return pn + '_', pn
+    return pn['identifier'], pn['file-name']
+
+
 def macro_expansions(cs, work):
     """preprocessor view of the shorthand macros and of the tracepoint() shim"""
     d = os.path.dirname(cs.exe)
@@ -191,6 +203,13 @@ def run(c):
     for cs in cases:
         d = os.path.dirname(cs.exe)
         fp, p = cs.ir['prefix']['file'], cs.ir['prefix']['ident']
+        dp, dfp = doc_prefixes(cs)
+        stats['prefixes_compared_with_the_document'] = stats.get('prefixes_compared_with_the_document', 0) + 1
+        if (p, fp) != (dp, dfp):
+            c.violation({'property': 'C19', 'kind': 'the prefixes of the configuration differ from those the document states '
+                         '(string form: identifier prefix PREFIX_, file name prefix PREFIX)', 'document': [dp, dfp],
+                         'configuration_object': [p, fp], 'config_yaml': cs.text})
+            continue
         rc, log = common.cc(['gcc', '-c', '-O1', f'{fp}.c', '-o', 'names.o'], cwd=d)
         syms = hlayout.nm_defined('names.o', d)
         model = common.drv_run([json.dumps(cs.ir), json.dumps({'op': 'syms'}), json.dumps({'op': 'macros'})])
